@@ -143,7 +143,7 @@ PROPS = {
                             faults=("cancel",), maxfaults=1, must_cover=("Cancel", "ScriptStep", "JoinReturn", "AwaitReturn"))],
                "thorough": [mc("Fail-peer-2x2", actors=("a1", "a2"), extra_actors="PeerActors", extra_handles="PeerHandles", ops=("send", "call", "stop"), scripts="ScriptsPeer",
                                cfgs="CfgsB1", faults=("cancel",), maxfaults=1, must_cover=("Cancel", "ScriptStep")),
-                            mc("Fail-own-2x3", maxops=3, ops=("send", "call", "await", "join", "stopped", "ping"), scripts="ScriptsFail", cfgs="CfgsFailOwn", kinds="InitKindsOwn", faults=("cancel",), maxfaults=1),
+                            mc("Fail-own-2x3", maxops=3, ops=("call", "await", "join", "stopped"), scripts="ScriptsFail", cfgs="CfgsFailOwn", kinds="InitKindsOwn", faults=("cancel",), maxfaults=1),
                             mc("Fail-3x2", clients=C3, ops=("send", "call", "await", "halt", "upgrade"), scripts="ScriptsFail", cfgs="CfgsFail", kinds="InitKindsAW", faults=("cancel",), maxfaults=2)]},
         "families": [("fail", 300, 3000), ("tree", 80, 800), ("timers", 80, 800), ("registry", 250, 2500), ("awaiters", 60, 600), ("mix", 120, 1200)],
         "relevant": r'"how":"panic"|"ev":"cancel"|"e":"err"|h_abandon', "relevant_min": 1,
@@ -152,7 +152,7 @@ PROPS = {
         "invariants": ["C07", "C03"],
         "mc": {"quick": [mc("Restart-1x3", clients=("c1",), maxops=3, ops=("send", "call", "restart"), scripts="ScriptsRestart", cfgs="CfgsStrat2", must_cover=("RestartTaken", "RestartStopped", "RestartRefresh", "RestartStarted")),
                          mc("Restart-2x2", ops=("send", "restart"), scripts="ScriptsPlain", cfgs="CfgsStrat2", must_cover=("RestartTaken", "RestartRefresh"))],
-               "thorough": [mc("Restart-2x3", maxops=3, ops=("send", "call", "restart", "stop"), scripts="ScriptsRestart", cfgs="CfgsStrat2"),
+               "thorough": [mc("Restart-2x3", maxops=3, ops=("call", "restart", "stop"), scripts="ScriptsRestart", cfgs="CfgsStrat2"),
                             mc("Restart-3x2", clients=C3, ops=("send", "call", "restart"), scripts="ScriptsRestart", cfgs="CfgsStrat2", kinds="InitKindsSC")]},
         "dev_demo": [("D3", mc("Timers-race-1x1", clients=("c1",), maxops=1, ops=("send", "stop", "drop"), scripts="ScriptsTimers", cfgs="CfgsTimersQ", horizon=4))],
         "families": [("restart", 250, 2500), ("timers", 150, 1500), ("mix", 120, 1200)],
